@@ -5,6 +5,9 @@ HERE = os.path.dirname(os.path.dirname(os.path.abspath(__file__)))
 
 # id -> (technique, level text, level note, design ref)
 CHECKS = {
+ "C19": ("generated ROM files against an accept/reject oracle and the header tables: exhaustive per header field x file-length classes + proptest headers with shrinking, loaded through the real loader in forked workers",
+         "In-memory ROM files are loaded through main::load_rom: all 256 values of the checksum, type, ROM-size and RAM-size bytes x 11 file-length classes around 0x100, 0x150 and the declared size, plus generated headers with arbitrary bytes everywhere. Accepted <=> long enough, checksum of 0x134-0x14C matches, supported type, file covers the declared size; accepted cores must have the table's ROM/RAM sizes, map banks like models::mbc, survive a full address sweep and a short run; any signal is a violation.",
+         "trusted: the header tables in harness rom.rs, models::mbc; unknown size codes and over-long files are gray (either outcome, no crash)", "DESIGN.md §5 C19"),
  "C10": ("model-based testing against a reference address-decode model: exhaustive write-target x probe matrix + proptest write histories with shrinking + fetch-view/data-read differential",
          "Every address W is written on several cartridges and after every single write all 65536 addresses are read back and compared with models::bus (storage independence, ROM constancy under the controller model's bank mapping, constant unmapped regions, I/O writable-bit masks); generated write histories biased to region boundaries and bank registers get the same full read-back; the interpreter's and the translator's instruction-fetch views are compared with data reads for every start address in ROM, work RAM and high RAM. The W x probe matrix is complete per cartridge; histories are sampled.",
          "trusted: models::bus and models::mbc; static device time (no clocks delivered); RAM kept enabled and MBC3 RTC selections excluded by construction; initial contents captured, not asserted", "DESIGN.md §5 C10"),
